@@ -241,6 +241,20 @@ def run(repo, rep, tier):
                             isinstance(m.value, str) and not any(
                                 m is y for y in ast.walk(n)):
                         outer.add(m.value)
+                # attribute names read by a helper of the same class that
+                # is handed the attribute dictionary
+                for m in walk_no_nested(f.node):
+                    if isinstance(m, ast.Call) and \
+                            (dotted(m.func) or '').startswith(
+                                ('self.', 'cls.')) and \
+                            dotted(m.func) != 'self.check_node' and \
+                            f.cls is not None and \
+                            any(X.is_attr_dict(a_, f) for a_ in m.args):
+                        h_ = f.cls.find_method(dotted(m.func).split('.')[1])
+                        if h_ is not None:
+                            outer |= {y.value for y in ast.walk(h_.node)
+                                      if isinstance(y, ast.Constant) and
+                                      isinstance(y.value, str)}
                 cn_only = inner - outer
         for a in sorted((r.required or set()) | (r.optional or set())):
             if a == 'xml:lang':
@@ -430,6 +444,7 @@ def run(repo, rep, tier):
     from .c04 import path_attached_after_properties
     path_attached_after_properties(repo, rep, 'C01.R17')
     converted_values_are_used(repo, rep)
+    slots_reach_the_element_on_every_path(repo, rep)
     # the datetime writer str(CIMDateTime) is part of every VALUE written for
     # a datetime: same exact-arithmetic rule as C06.R8
     from .c06 import _r8_exact_fields
@@ -1077,3 +1092,58 @@ def real_text_rule(repo, rep):
     if not seen['real32'] or not seen['real64']:
         raise AnalysisError('atomic_to_cim_xml: branches for the real types '
                             'not found (%s)' % seen)
+
+
+def slots_reach_the_element_on_every_path(repo, rep):
+    """C01.R19: what tocimxml() hands to an element constructor for an
+    attribute that is a slot of the object (array_size, class_origin,
+    propagated, ...) is that slot on every way through the method.  A local
+    that is preset to None and filled from the slot only in one branch
+    (`array_size = None ... if isinstance(self.value, list): array_size =
+    self.array_size`) drops the attribute for the objects that take the
+    other branch - a fixed-size array declaration without a default value
+    loses its ARRAYSIZE and comes back as a variable-size array."""
+    r19 = rep.rule('C01.R19', 'attributes that are slots of the object are '
+                   'written from the slot on every path of tocimxml()')
+    mod = repo.module(OBJ)
+    ncalls = 0
+    for cname, cls in sorted(mod.classes.items()):
+        f = cls.methods.get('tocimxml')
+        if f is None:
+            continue
+        slots = {x.lstrip('_') for x in (cls.slots() or [])}
+        for c in walk_no_nested(f.node):
+            if not (isinstance(c, ast.Call) and
+                    (dotted(c.func) or '').startswith('_cim_xml.')):
+                continue
+            for kw in c.keywords:
+                if kw.arg not in slots or not isinstance(kw.value, ast.Name):
+                    continue
+                ncalls += 1
+                r19.sites += 1
+                r19.functions.add(f.fq)
+                defs = [a.value for a in walk_no_nested(f.node)
+                        if isinstance(a, ast.Assign) and any(
+                            isinstance(t, ast.Name) and t.id == kw.value.id
+                            for t in a.targets)]
+                from_slot = [d for d in defs if any(
+                    isinstance(x, ast.Attribute) and x.attr == kw.arg and
+                    isinstance(x.value, ast.Name) and x.value.id == 'self'
+                    for x in ast.walk(d))]
+                blank = [d for d in defs if isinstance(d, ast.Constant) and
+                         d.value is None]
+                ok = not (from_slot and blank)
+                r19.ob(ok, '%s|%s=%s' % (f.qualname, kw.arg, kw.value.id))
+                if not ok:
+                    rep.finding(r19, f.qualname,
+                                '%s=%s' % (kw.arg, kw.value.id),
+                                'slot-on-some-paths', OBJ, c.lineno,
+                                'the %s attribute is taken from a local that '
+                                'is None unless one branch copies self.%s '
+                                'into it: objects taking the other branch '
+                                'are encoded without the attribute and do '
+                                'not parse back equal'
+                                % (kw.arg.upper().replace('_', ''), kw.arg))
+    # the direct form `array_size=self.array_size` is the normal one; the
+    # rule only speaks about locals, so zero sites is a legitimate state
+    r19.notes.append('%d slot attributes passed through a local' % ncalls)
